@@ -392,3 +392,58 @@ func HoistOverlay(repo string) (map[string][]byte, int, error) {
 	}
 	return out, n, nil
 }
+
+// MessageOverlay changes the text of every log line and every fmt.Errorf message (appends " ~" to the
+// format literal). Messages are for people; no rule may depend on their wording.
+func MessageOverlay(repo string) (map[string][]byte, int, error) {
+	fset, pkgs, err := loadForRewrite(repo, false)
+	if err != nil {
+		return nil, 0, err
+	}
+	out := map[string][]byte{}
+	n := 0
+	logNames := map[string]bool{"Info": true, "InfoV": true, "Warn": true, "Error": true, "Fatal": true, "Errorf": true, "Infof": true, "Warningf": true, "Warning": true, "Alert": true}
+	for _, p := range pkgs {
+		for _, f := range p.Syntax {
+			name := fset.Position(f.Pos()).Filename
+			if strings.HasSuffix(name, "_test.go") {
+				continue
+			}
+			var offs []int
+			ast.Inspect(f, func(nd ast.Node) bool {
+				call, ok := nd.(*ast.CallExpr)
+				if !ok {
+					return true
+				}
+				sel, ok := call.Fun.(*ast.SelectorExpr)
+				if !ok || !logNames[sel.Sel.Name] {
+					return true
+				}
+				if x, isIdent := sel.X.(*ast.Ident); sel.Sel.Name == "Errorf" && (!isIdent || x.Name != "fmt") {
+					return true
+				}
+				for _, a := range call.Args {
+					if lit, ok := a.(*ast.BasicLit); ok && lit.Kind == token.STRING && strings.HasPrefix(lit.Value, "\"") {
+						offs = append(offs, fset.Position(lit.End()).Offset-1)
+						break
+					}
+				}
+				return true
+			})
+			if len(offs) == 0 {
+				continue
+			}
+			src, err := os.ReadFile(name)
+			if err != nil {
+				return nil, 0, err
+			}
+			sort.Sort(sort.Reverse(sort.IntSlice(offs)))
+			for _, o := range offs {
+				src = append(src[:o], append([]byte(" ~"), src[o:]...)...)
+				n++
+			}
+			out[name] = src
+		}
+	}
+	return out, n, nil
+}
